@@ -20,10 +20,11 @@ import paths
 import values
 import seqref
 import seqgen
+import srcobl
 from seqref import FD, OOD
 
 ID = 'C13'
-LEAN_MODULES = ['Yaql.Props.C13']
+LEAN_MODULES = ['Yaql.Props.C13'] + srcobl.modules('C13')   # Props/SrcSeq, SrcStream, SrcRepeat: model = current source
 REQUIRED_THEOREMS = ['Yaql.Props.C13.' + n for n in (
     'orderBy_perm orderBy_sorted orderBy_stable orderBy_stable_pair stable_sort_unique thenBy_lex cmpFields_append '
     'descending_reverse_of_keys orderBy_sorted_int groupBy_partition groupBy_keys_distinct groupBy_group_content '
@@ -41,7 +42,7 @@ REQUIRED_THEOREMS = ['Yaql.Props.C13.' + n for n in (
     'select_map where_error_position takeWhile_error_position skipWhile_error_position select_never_truncates '
     'where_never_truncates select_congr_dup lam_where_eval lam_first_eval noLazy_of_hashable run_select_lazy run_where_lazy '
     'run_takeWhile_lazy run_skipWhile_lazy take_before_error take_past_error findM_error_position run_indexWhere_eager'
-).split()]
+).split()] + srcobl.theorems('C13')
 TRUSTED = ["CPython's sorted() is a stable sort (licensed by stable_sort_unique); Python ==/hash on the generated values "
            "is what Value.pyEq / canon model; iteration order of an input set is read from CPython",
            'harness/seqref.py (plain-Python transcription of the documented meaning, second opinion for every case)']
@@ -538,9 +539,59 @@ def work(args):
 FUNCTIONS = list(seqgen.ALL_OPS)
 
 
+def generate():
+    return srcobl.generate('C13')     # re-translate collections.py / queries.py (harness/py2lean.py -> Gen/SrcSeq ...)
+
+
+# how a translated function is reached from a yaql pipeline: (receiver, op) of this check's case format
+def _seq(c):
+    return tuple(c)
+
+
+def _it(c):
+    return values.Iter(list(c))
+
+
+SRC_OPS = {
+    'list_insert': lambda c, n, v: (_seq(c), dict(op='insert', n=n, v=v)),
+    'iter_insert': lambda c, n, v: (_it(c), dict(op='insert', n=n, v=v)),
+    'insert_many': lambda c, n, vs: (_seq(c), dict(op='insertMany', n=n, vs=tuple(vs))),
+    'delete': lambda c, n, k: (_seq(c), dict(op='delete', vs=(n, k))),
+    'replace': lambda c, n, v, k: (_seq(c), dict(op='replace', n=n, m=k, v=v)),
+    'replace_many': lambda c, n, vs, k: (_seq(c), dict(op='replaceMany', n=n, m=k, vs=tuple(vs))),
+    'index_of': lambda c, v: (_seq(c), dict(op='indexOf', v=v)),
+    'last_index_of': lambda c, v: (_seq(c), dict(op='lastIndexOf', v=v)),
+    'enumerate_': lambda c, n: (_seq(c), dict(op='enumerate', n=n)),
+    'append': lambda c, vs: (_seq(c), dict(op='append', vs=tuple(vs))),
+    'skip': lambda c, n: (_seq(c), dict(op='skip', n=n)),
+    'limit': lambda c, n: (_seq(c), dict(op='take', n=n)),
+    'split_at': lambda c, n, f: (_seq(c), dict(op='splitAt', n=n)),
+}
+_SRC_DRV = [None]
+
+
+def src_oracle(t, pyargs, real):
+    """a candidate from the source-level differential, as a one-stage pipeline judged by this check's oracle (real
+    engine vs the plain-Python transcription of the documented meaning)"""
+    mk = SRC_OPS.get(t.name)
+    if mk is None:
+        return None
+    try:
+        value, op = mk(*pyargs)
+        mr = ask_model(_SRC_DRV[0], [case_json(value, [op])])[0]
+        f, info = evaluate_case(value, [op], mr)
+    except Exception:       # the arguments cannot be spelled as a pipeline of this check
+        return None
+    if f and f[0] == 'oracle':
+        return (failure_key([op], info), f[1] + '  [found through the source-level differential of %s]' % t.qual,
+                replay_of(value, [op]))
+    return None
+
+
 def run(env, res):
     tier = env['tier']
     use_model = env['driver'] is not None
+    _SRC_DRV[0] = env['driver']
     res.rule = ('per function f: pipelines of <= 4 stages containing f, on tuples / sets / dicts / one-shot iterators / '
                 'scalars of size 0..6 with duplicates, nulls, nesting; element profiles include lists of small lists with '
                 'REPEATED and empty inner lists and 1 / 1.0 / true, 0 / 0.0 / false side by side (top level and nested); '
@@ -552,6 +603,9 @@ def run(env, res):
     if env['replay']:
         rp = json.load(open(env['replay']))
         case = rp['case']
+        if 'src_target' in (case or {}):
+            srcobl.differential(env, res, 'C13', oracle=src_oracle)
+            return res
         value = value_from_json(case['data'])
         ops = [op_from_json(j) for j in case['ops']]
         binder = op_from_json(case['let']) if case.get('let') else None
@@ -589,6 +643,7 @@ def run(env, res):
         lazy_lambda = [a + b for a, b in zip(lazy_lambda, out['lazy_lambda'])]
         dup_nested += out['dup_nested']
         twins += out['twins']
+    srcobl.differential(env, res, 'C13', oracle=src_oracle)    # real function vs its translation vs the model
     res.extra['functions'] = len(FUNCTIONS)
     res.extra['per_function'] = per_fn
     res.extra['host_paths_this_process'] = dict(paths.HIST)
